@@ -15,12 +15,35 @@ def run(tier):
     t = f.thorough
     f.out.stage('known-finding canonical cases'); f.known_cases()
     f.out.stage('A model check'); f.model_check(6 if t else 4)
+    f.out.stage('A2 inductive step of the session invariants (ViseInd)')
+    vise_ind(f, [('reenter', 2, {0, 1, 2, 3, 6, 8}), ('nav', 1, {0, 3, 6, 8}), ('capacity', 1, {0, 3, 6, 8})] if t else [('reenter', 1, {0, 6, 8})])
     f.out.stage('B+C model histories on the real engine (exhaustive over each program alphabet + refused inputs)'); f.replay_model(5 if t else 3)
     f.out.stage('C random programs, junk inputs, both modes'); f.random(400 if t else 50, 30 if t else 20, 16, 'LP')
     f.out.stage('C example applications of the repository'); f.examples(40 if t else 8, 14)
     f.out.stage('C paired runs over mem / fs / pg-fake'); f.pairs_stage(60 if t else 10, 12, 10)
     return f.finish('Model programs exhaustively over (selectors + unknown + empty + refused + over-long)^depth, random well-formed programs with junk '
                     'byte strings of length 0..300, in long-lived and persisted mode over three stores;')
+
+
+def vise_ind(f, jobs):
+    """Levels / Consistent / path well-formedness / no panic / TERMINATE gate / mapped-visible are INDUCTIVE over Iter: one iteration
+    from every session state of a bounded universe that satisfies them (ViseInd.tla) - the bounded-depth exploration of ViseMC extended
+    to histories of any length, at the level of the specification."""
+    import json, os
+    for prog, depth, flags in jobs:
+        nflags = 8 + json.load(open(vise.prog_path(prog)))['flagcount']
+        cfg = 'ind_%s.cfg' % prog
+        c = dict(vise.BASE_CONST, MaxDepth=depth, NFlags=nflags, FlagUniverse=flags)
+        c.pop('MaxReq', None); c.pop('Mode', None); c.pop('Cap', None)
+        txt = core.gen_cfg(constants=c, invariants=['C08_LevelsInductive', 'C08_ConsistentInductive', 'C08_PathInductive', 'C08_NoPanicStep',
+                                                    'C06_BlockedStep', 'C05_MappedVisibleStep'])
+        txt = txt.replace('CONSTANTS\n', 'CONSTANTS\n  ' + '\n  '.join(vise.SUBST) + '\n')
+        open(os.path.join(f.w, cfg), 'w').write(txt)
+        r = core.tlc(f.w, 'ViseInd', cfg, workers=core.NCPU, timeout=3000, env={'VERIF_PROG': vise.prog_path(prog)})
+        core.require_tlc_ok(r, 'ViseInd %s' % prog)
+        if r.violated:
+            raise core.Infra('ViseInd %s: %s is not inductive in the specification\n%s' % (prog, r.violated, r.out[-3000:]))
+        f.out.add_tlc('ViseInd %s: one iteration from every invariant-satisfying session (depth <= %d, flags %s)' % (prog, depth, sorted(flags)), r)
 
 
 def replay(path):
